@@ -4,6 +4,7 @@
    behaviour [kh] (so cluster faults are included), atomic storage calls.  [op_prog_fx] runs
    install as [OpsFix.install_fx] = Ops.install with the repaired replaceRelease (identical when
    --replace is off, [install_fx_eq]); upgrade is Ops.upgrade. *)
+From Helm Require Props.Decisions. (* data conditions of the release operations tied to /repo by the translator: notes/DEC.md *)
 From Coq Require Import List String Bool Arith.
 From Helm Require Import Engine.Types Engine.Eff Engine.Ops Engine.OpsFix Engine.Cluster Engine.Seq Engine.SeqProofs
                          Engine.Conc Engine.ConcProofs Engine.ConcLocal Engine.ConcProofsB
